@@ -310,6 +310,35 @@ func cmdReplay(args []string) int {
 		fmt.Printf("replay of %s: the recorded violation (%s) does not occur on the current tree\n", args[0], rf.Signature)
 		return 0
 	}
+	if rf.Scenario == "c19_startup" {
+		w, err := startWorker(bin, rf.Config.Text, false)
+		started := err == nil
+		diagnosed := false
+		if se, ok := err.(*startupError); ok {
+			diagnosed = se.exit == 1 && strings.Contains(se.stderr, "failed to parse") && strings.Contains(se.stderr, "config.toml")
+		} else if err != nil {
+			fmt.Fprintln(os.Stderr, "simrun: "+err.Error())
+			return 2
+		}
+		if w != nil {
+			w.stop()
+		}
+		recurs := false
+		switch {
+		case strings.Contains(rf.Signature, "/accepted-invalid-configuration"):
+			recurs = started
+		case strings.Contains(rf.Signature, "/rejected-valid-configuration"):
+			recurs = !started && diagnosed
+		case strings.Contains(rf.Signature, "/startup-crash"):
+			recurs = !started && !diagnosed
+		}
+		if recurs {
+			fmt.Printf("VIOLATION property=%s replay=%s\n  signature: %s\n  %s\n", rf.Property, args[0], rf.Signature, indent(rf.Detail, "  "))
+			return 1
+		}
+		fmt.Printf("replay of %s: the recorded violation (%s) does not occur on the current tree\n", args[0], rf.Signature)
+		return 0
+	}
 	tmpl := &Job{Prop: rf.Property, Scen: rf.Scenario, Params: rf.Params, TLS: rf.TLS, Parallel: rf.Parallel}
 	rp := &replayer{bin: bin, cfg: rf.Config, race: rf.Race}
 	defer rp.close()
